@@ -159,6 +159,9 @@ def run_cases(rep, cases):
             rep.count("skipped:not-wellformed")
             continue
         S, D = c["schema"], c["frame"]
+        if not P.checks_typed(c):
+            rep.count("skipped:check-of-another-kind-than-the-column")
+            continue
         df = A.frame_of(D)
         kind, out = validate(S, df.copy())
         opts = "+".join(k for k, on in (
@@ -247,22 +250,27 @@ def known_region(c, out, which):
     """K_C03_dropKeepsNullDuplicates: with drop_invalid_rows, duplicated *null* values are not reported
     (C02's finding), hence not dropped, so the result still violates `unique`"""
     S = c["schema"]
-    if not S["dropInvalid"]:
-        return None
     k, o = validate(strip(S), out.copy())
     if k != "errors":
         return None
+    if S["addMissing"] and S["ordered"] and all(e.reason_code.name == "COLUMN_NOT_ORDERED" for e in o.schema_errors):
+        return "K_C03_staleColumnInfo"
+    if not S["dropInvalid"]:
+        return None
     from pandera.api.pandas.components import Index
     labels = out.index.tolist()
-    if all(isinstance(e.schema, Index) for e in o.schema_errors) and labels != list(range(len(labels))):
-        return "K_C03_dropIndexErrorsByPosition"
+    regions = []
     for e in o.schema_errors:
-        if e.reason_code.name not in ("SERIES_CONTAINS_DUPLICATES", "DUPLICATES"):
-            return None
+        if isinstance(e.schema, Index) and labels != list(range(len(labels))):
+            regions.append("K_C03_dropIndexErrorsByPosition")
+            continue
         fc = e.failure_cases
-        if isinstance(fc, pd.DataFrame) and len(fc) and fc["failure_case"].notna().any():
-            return None
-    return "K_C03_dropKeepsNullDuplicates"
+        if e.reason_code.name in ("SERIES_CONTAINS_DUPLICATES", "DUPLICATES") and not (
+                isinstance(fc, pd.DataFrame) and len(fc) and fc["failure_case"].notna().any()):
+            regions.append("K_C03_dropKeepsNullDuplicates")
+            continue
+        return None
+    return regions[0] if regions else None
 
 
 def run_series(rep, rng, n):
